@@ -223,9 +223,19 @@ pub fn generate(rng: &mut Rng, thorough: bool, out: &mut Out) {
             }
             4 => {
                 let k = rng.below(13) as usize;
+                let start = p2(rng);
+                let mut adds: Vec<(f64, Pt2, Pt2, u64)> = (0..k).map(|_| (handle_len(rng), p2(rng), p2(rng), seg(rng).min(60))).collect();
+                // coincidences between knots: the chain comes back to its first point without `close`,
+                // or visits a knot twice
+                if k > 0 && rng.chance(0.2) {
+                    adds[k - 1].2 = start;
+                }
+                if k > 2 && rng.chance(0.1) {
+                    adds[k - 1].2 = adds[0].2;
+                }
                 let h = Hist2 {
-                    first: (p2(rng), p2(rng), p2(rng), p2(rng), seg(rng).min(60)),
-                    adds: (0..k).map(|_| (handle_len(rng), p2(rng), p2(rng), seg(rng).min(60))).collect(),
+                    first: (start, p2(rng), p2(rng), p2(rng), seg(rng).min(60)),
+                    adds,
                     close: if rng.chance(0.5) { Some((handle_len(rng), p2(rng), handle_len(rng), seg(rng).min(60))) } else { None },
                 };
                 let (q, r) = run_chain2(h);
@@ -233,9 +243,17 @@ pub fn generate(rng: &mut Rng, thorough: bool, out: &mut Out) {
             }
             5 => {
                 let k = rng.below(13) as usize;
+                let start = p3(rng);
+                let mut adds: Vec<(f64, Pt3, Pt3, u64)> = (0..k).map(|_| (handle_len(rng), p3(rng), p3(rng), seg(rng).min(60))).collect();
+                if k > 0 && rng.chance(0.2) {
+                    adds[k - 1].2 = start;
+                }
+                if k > 2 && rng.chance(0.1) {
+                    adds[k - 1].2 = adds[0].2;
+                }
                 let h = Hist3 {
-                    first: (p3(rng), p3(rng), p3(rng), p3(rng), seg(rng).min(60)),
-                    adds: (0..k).map(|_| (handle_len(rng), p3(rng), p3(rng), seg(rng).min(60))).collect(),
+                    first: (start, p3(rng), p3(rng), p3(rng), seg(rng).min(60)),
+                    adds,
                     close: if rng.chance(0.5) { Some((handle_len(rng), p3(rng), handle_len(rng), seg(rng).min(60))) } else { None },
                 };
                 let (q, r) = run_chain3(h);
